@@ -212,6 +212,10 @@ def run(prog: Program, res: Result, tier: str) -> None:
         f = prog.func(S, fname)
         _lane_rule(prog, res, f, name)
 
+    # ---- R3 (cont.) a lane axis of length 1 survives: no unqualified squeeze in the estimators (F35) --------------------
+    from ..lints import check_no_bare_squeeze
+    check_no_bare_squeeze(prog, res, "R3", [S], "for data of shape (1, n) reduced along axis=1 the kept axis disappears too and the result no "
+                          "longer broadcasts against the input")
     # ---- R5 sibling symmetry inside the double-sided estimator ------------------------------------------------------
     check_doublemad_symmetry(prog, res, "R5")
 
@@ -492,6 +496,10 @@ def _positional_uses(f: FuncInfo, data: str) -> list[ast.AST]:
 
 SF = "sigpyproc/core/stats.py"
 MUTANTS = [
+    {"id": "c15-revert-F35-mad", "file": "sigpyproc/core/stats.py", "expect": "C15.R3",
+     "old": "    return np.squeeze(mad, axis=axis)\n", "new": "    return np.squeeze(mad)\n"},
+    {"id": "c15-revert-F35-iqr", "file": "sigpyproc/core/stats.py", "expect": "C15.R3",
+     "old": "    return np.squeeze((percentiles[1] - percentiles[0]) / norm, axis=axis)\n", "new": "    return np.squeeze(np.diff(percentiles, axis=0) / norm)\n"},
     {"id": "c15-qn-constant-lane-int", "file": "sigpyproc/core/stats.py", "expect": "C15.R3",
      "old": "    n = len(data)\n    h = n // 2 + 1\n    k = h * (h - 1) // 2\n    diffs = np.abs(data[:, None] - data)\n",
      "new": "    n = len(data)\n    if data.min() == data.max():\n        return 0\n    h = n // 2 + 1\n    k = h * (h - 1) // 2\n    diffs = np.abs(data[:, None] - data)\n"},
